@@ -184,6 +184,8 @@ class Atoms(BaseObject):
     @spin.setter
     def spin(self, value):
         self.occ.spin = value
+        # The fillings have to be recalculated
+        self.is_built = False
 
     @property
     def charge(self):
@@ -193,6 +195,8 @@ class Atoms(BaseObject):
     @charge.setter
     def charge(self, value):
         self.occ.charge = value
+        # The fillings have to be recalculated
+        self.is_built = False
 
     @property
     def unrestricted(self):
@@ -205,6 +209,8 @@ class Atoms(BaseObject):
             self.occ.Nspin = value
         else:
             self.occ.Nspin = value + 1
+        # The fillings have to be recalculated
+        self.is_built = False
 
     @property
     def center(self):
@@ -302,6 +308,8 @@ class Atoms(BaseObject):
         if self.occ.Nspin and self.occ.bands < self.occ.Nelec * self.occ.Nspin // 2:
             log.warning("The number of bands is too small, reset to the minimally needed amount.")
             self.occ.bands = 0
+        # The fillings have to be recalculated
+        self.is_built = False
 
     # ### Read-only properties ###
 
@@ -420,6 +428,7 @@ class Atoms(BaseObject):
         self.kpts._Nk = len(self.kpts._wk)
         self.kpts._kmesh = None
         self.occ.wk = self.kpts.wk
+        self.occ.fill()  # The number of k-points can change, refill the states
         self._sample_unit_cell()
         return self
 
